@@ -16,9 +16,9 @@ prop('C12',
      rule=("Histories of 1..40 operations {Read, ReadPartial, Peek, Seek, SeekForward, SeekBackward, SeekBeginning, SeekEnd, "
            "typed fixed/container/size-prefixed/NUL-string reads} with arguments from the boundary table {0,1,len-1,len,len+1,rem-1,rem,rem+1,"
            "2^31,2^32,2^63,2^64-1,2^64-pos,...} decoded from a byte tape (rapidcheck + libFuzzer), run on MemoryReader, MemoryReader slice, "
-           "FileSliceReader, slice-of-slice (memory and file) over a 0..64 byte source (thorough: ..5000) with planted size prefixes; "
+           "FileSliceReader, slice-of-slice (memory and file) over a 0..64 byte source (one case in eight 256..705 bytes; thorough: ..5000) with planted size prefixes; "
            "oracle = (bytes, cursor) model checked after every operation plus a closing drain. Sweep: all 2-operation histories over the "
-           "(operation x boundary argument) alphabet on a 5-byte window and all single operations on empty windows, every reader kind. "
+           "(operation x boundary argument) alphabet on a 5-byte window and all single operations on empty windows, every reader kind; int8/int16 size prefixes {-1,-2,-3,-127,-128,127,126,-32768,-32767,-256,-255,32767,255,256} with 132000 bytes of data behind them (enough to satisfy the value re-read as unsigned) x element sizes 1/2 x every reader kind. "
            "Non-trivial = a history with >=1 refused operation followed by >=1 successful data read, or a short partial read followed by "
            "another operation; distinct = hash of (kind, source, window, resolved operation list)."),
      sweep_what="all ordered pairs of (operation, boundary-argument) on 5-byte windows x 5 reader kinds; all single operations on empty windows",
@@ -103,7 +103,7 @@ prop('C15',
      floor=dict(quick=60000, thorough=1000000), alloc_cap_mb=64,
      rule=("Sweep: every update sequence up to depth d on trees of n=2..6 symbols (quick d=10,8,7,6,5; thorough d=14,10,9,8,7), each prefix checked; initial trees "
            "for every n=2..330 with out-of-range symbols/nodes refused without change; runs of exactly 65535-n updates (round-robin, single-symbol, pseudo-random) on "
-           "n=2,3,314 (thorough also 4,5,17,100,313), then three further updates that must be refused leaving shape and all bit strings unchanged. pbt/fuzz: n from "
+           "n=2,3,314 (thorough also 4,5,17,100,313), then three further updates that must be refused leaving shape and all bit strings unchanged; deep runs on n=24,40,100,314: chain symbols receive 1+(weight of everything lighter) updates each, which stacks them one per level (codes of 19..21 bits, beyond a 16-bit accumulator), in two update orders; out-of-range symbols n, n+1, 2n-1, 32768, 32768+n, 65536-2n, 65536-(2n-1), 65536-n, 65534, 65535. pbt/fuzz: n from "
            "{2..8,16,31..33,64,100,255,256,313,314, random 2..314}, 1..5000 updates (thorough 20000) drawn uniform / skewed / single-symbol / round-robin / sawtooth / "
            "seeded-PRNG, checked every len/48 updates and at the end. Oracle at each check: simultaneous walk of the library tree (GetRootNodeIndex/GetChildNode/IsLeaf/"
            "GetNodeData) and an independent freq/prnt/son sibling-property implementation: same shape, 2n-1 reachable nodes, every symbol on exactly one leaf; "
@@ -168,7 +168,7 @@ prop('C02',
            "index order at the recorded offsets + zero pad to 4; 'voli' = 14-byte entries + zero pad; every section word carries the 4-byte-padding flag; block offsets 4-aligned, "
            "contiguous, VBLK length == entry size, zero padded, last block ends at EOF; names strictly ascending case-insensitively and an actual binary search finds each. "
            "(ii) Otherwise an independent encoder emits an archive from a tape: 0..10 members (names as C01, sorted), random or LZH-compressed payloads (encoded by the reference "
-           "LZH encoder; index size = uncompressed length), 0..5 unused trailing index slots (name offset 0xFFFFFFFF, arbitrary other fields), optional extra zero words after the "
+           "LZH encoder; index size = uncompressed length), 0..5 unused trailing index slots (name offset 0xFFFFFFFF, arbitrary other fields or the block offset of a real member; every per-member call must refuse their indices), optional extra zero words after the "
            "name table, optionally (class beta) an index length that also covers 1..13 padding bytes. VolFile must list the same names, sizes, kinds, stream exactly the stored "
            "payloads and extract the expanded bytes; for class beta a clean refusal at open is also accepted. Sweep: 64 written residue combinations; 5 member counts x 4 unused-slot "
            "counts x 14 index-length extras x 2 paddings. Non-trivial = >=1 member; distinct = hash of names/payloads/options."),
@@ -226,9 +226,9 @@ prop('C17',
      floor=dict(quick=1500, thorough=50000), alloc_cap_mb=64,
      rule=("Directory layouts decoded from a tape inside a digit-named scratch directory: 0..6 loose files, 0..3 VOL and 0..2 CLM archives written by independent encoders, names drawn "
            "from a 14-name pool chosen so that loose files and members collide in all letter-case variants (a.txt/A.TXT/a.TXT, b.dat/B.dat, trk1/TRK1, ...), archives optionally with "
-           "duplicate member names, optionally with upper-case extensions (not loaded), optional sub-directory, directories named 8.vol and 9.clm. Per layout: archive-level laws on each "
+           "duplicate member names, VOL archives optionally with 1..3 unused trailing index slots (stale fields zero or random), optionally with upper-case extensions (not loaded), optional sub-directory, directories named 8.vol and 9.clm. Per layout: archive-level laws on each "
            "archive (Contains <=> GetIndex does not throw <=> model; index names the first member equal ignoring case and './'; GetIndex(GetName(i))==i when duplicate-free; every "
-           "per-member call refuses indices >= count incl. 2^32-1 and 2^64-1), then 20 GetResourceStream queries (pool names in random case, with/without './', unknown, sub-directory "
+           "per-member call incl. GetCompressionCode refuses indices count..count+3 (unused slots), 2^32-1 and 2^64-1), then 20 GetResourceStream queries (pool names in random case, with/without './', unknown, sub-directory "
            "paths, archives enabled/disabled) against the model loose-exact-spelling > member of any loaded archive > nothing, FindContainingArchivePath soundness/completeness, rooted "
            "paths refused, GetArchiveFilenames = .vol files then .clm files, type listings for 8 extensions x archives on/off (loose files by exact dot-extension, then exactly one "
            "member per new name class, case-blind) and pattern listings for 8 letter patterns (multiset equality). Sweep: each pool name placed loose / in one / in three archives / both, "
@@ -247,7 +247,7 @@ prop('C20',
      floor=dict(quick=15000, thorough=60000), alloc_cap_mb=64, case_timeout=600,
      rule=("Every case is at or just beyond an on-disk limit. Sweep (exhaustive for the layer matrix): ArtFile::Write of a frame with every 7-bit layer count 0..127 against every layer-list "
            "length 0..130 (16768 combinations: must throw iff they differ, else re-read equal) plus list lengths count+128/256/384/512/1024/65536 for every count (a narrowed comparison would pass them); size-prefixed writes of 127/128/255/256/32767/32768/65535/65536 elements with i8/u8/i16/u16/u32 "
-           "prefixes; CLM names of 7..10 characters; VolFile::CreateArchive with sparse members of 2^31, 2^31+1, 2^32-1, 2^32, 2^32+5 bytes among small ones and member sets whose block offsets "
+           "prefixes; CLM names of 7..10 characters and dotted stems (abcd.efg, snd1.take2, .longername, a..b, ...: the whole stem before the last extension counts); frames whose count/list differences cancel (+d and -d, d in {1,2,5,64,127}, within one animation and across two); VolFile::CreateArchive with sparse members of 2^31, 2^31+1, 2^32-1, 2^32, 2^32+5 bytes among small ones and member sets whose block offsets "
            "cross 2^32 although every member fits (4 x 1.5 GiB; 3 x (2^31-1); ...), destination absent and pre-existing; ClmFile::CreateArchive with sparse WAVs whose data offsets cross 2^32; "
            "thorough additionally really writes and re-reads a member of 2^31-1 bytes. The must-refuse archive calls run in a forked child under RLIMIT_FSIZE=1 MiB whose SIGXFSZ handler exits "
            "with a distinctive status, so a tree that wrongly starts writing is convicted in milliseconds. Oracle: does not fit => std::exception (child status 0), never 'returned normally' and "
@@ -380,11 +380,11 @@ prop('C11',
      quick=dict(sweep=True, pbt=(12000, 500, 10), fuzz=(150000, 1400, 5)),
      thorough=dict(sweep=True, pbt=(400000, 700, 10), fuzz=(10000000, 2000, 6), stage_timeout=3400),
      floor=dict(quick=40000, thorough=1000000), alloc_cap_mb=64, case_timeout=60,
-     rule=("Three loaders (BitmapFile::ReadIndexed, Tileset::ReadTileset in both formats, ArtFile::Read) fed with: sweep - 4 reference-encoded seed files per loader: the intact file must load, every "
+     rule=("Three loaders (BitmapFile::ReadIndexed, Tileset::ReadTileset in both formats, ArtFile::Read; memory readers and - for every prefix near the ends and every fifth one, every intact seed and a quarter of the generated cases - the FILE-backed entry points ReadIndexed(filename), ReadTileset over a FileReader, ArtFile::Read(filename)) fed with: sweep - 4 reference-encoded seed files per loader: the intact file must load, every "
            "proper prefix must be refused, every header field x 33 boundary values (0,1,..,40,54,..,2^15,2^16,0x7FFFFFE0,2^31-1,2^31,2^31+1,0xFFFFFFE0,0xFFFFFFF8,0xFFFFFFFC,2^32-1,v+-1); "
            "constructed wrap-around bitmaps: for depths 1/4/8, widths -1..-64, INT32_MIN..INT32_MIN+3, -65536, -2^28 and heights +-1..64, +-2^7..2^30, INT32_MIN, INT32_MAX, 0, every pair whose pitch x "
            "|height| is <= 4096 modulo 2^64 (pitch computed as a 64-bit size_t product on the sign-extended width) is emitted with exactly that many pixel bytes so the size cross-check passes; "
-           "extreme heights with small widths; custom tileset pixel heights around 2^31 and 2^32 with matching data lengths modulo 2^32; PRT counts replaced by values near 2^32 and by values whose "
+           "positive dimensions with pitch 2^a (a = 2..24) and height +-(2^(32-a) [+1]) for all three depths (pitch x |height| = 2^32 [+pitch]) carrying the byte count modulo 2^32, also as tileset-shaped bitmaps; extreme heights with small widths; custom tileset pixel heights around 2^31 and 2^32 with matching data lengths modulo 2^32; PRT counts replaced by values near 2^32 and by values whose "
            "product with the record size wraps. pbt/fuzz: a seed file + 1..3 mutations (field boundary value, truncation, byte, append) and raw bytes per loader from the seed corpus (libFuzzer). On "
            "every accepted object the follow-up operations run under ASan/UBSan: Validate, AbsoluteHeight, WriteIndexed (stream and file), InvertScanLines x2, SwapRedAndBlue, WriteCustomTileset, the "
            "Verify* helpers; for PRT: Write, the 64-bit cross-field rules, VerifyImageIndexInBounds for 0, n-1, n, n+1, 2^64-1 (must refuse >= n) and SpriteLoader::ExtractImage for every index "
@@ -401,10 +401,10 @@ prop('C18', extra_flavours=['varZ', 'varP'],
      quick=dict(sweep=True, pbt=(7200, 500, 12), fuzz=(4800, 500, 3)),
      thorough=dict(sweep=True, pbt=(240000, 700, 12), fuzz=(120000, 700, 3), stage_timeout=3400),
      floor=dict(quick=2000, thorough=100000), alloc_cap_mb=128, case_timeout=60,
-     rule=("Scenarios decoded from a tape, six kinds: (0) VOL creation from 0..5 generated files + reopen listing + extraction; (1) CLM creation from 0..4 generated WAVs (chunks before/after the data) "
+     rule=("Scenarios decoded from a tape, seven kinds: (0) VOL creation from 0..5 generated files (half of the later names extend an earlier name in another letter case: prefix-related names) + reopen listing + extraction; (1) CLM creation from 0..4 generated WAVs (chunks before/after the data) "
            "+ listing + every extracted WAV; (2) maps: a DEFAULT-CONSTRUCTED Map written as is, generated maps parsed then dumped field by field and re-written, edited maps, saved games; (3) bitmaps "
            "from the three factory overloads and from parsed files, dumped, written and flipped; (4) custom tileset written and re-loaded; (5) PRT parsed, every field incl. the optional frame bytes "
-           "dumped, re-written, plus a value-initialised empty ArtFile written. The driver (ASan build) runs each scenario THREE times: in a child built with -ftrivial-auto-var-init=zero whose heap "
+           "dumped, re-written, plus a value-initialised empty ArtFile written; (6) an LZH member of a reference-encoded volume whose first matches reach back before the start of the output (window never written, must read as spaces) extracted through VolFile and decoded through HuffLZ::GetData. The driver (ASan build) runs each scenario THREE times: in a child built with -ftrivial-auto-var-init=zero whose heap "
            "blocks are pre-filled with 0x00, in a child built with -ftrivial-auto-var-init=pattern whose heap blocks are pre-filled with 0xD7 (MALLOC_PERTURB_ set, stack scribbled with other bytes, "
            "other working directory and address layout, VOL/CLM inputs listed in reverse order and spelled './...'), and in-process under ASan's own malloc fill. Each run emits every output byte "
            "string in hex and a canonical text dump of every parsed structure; the three emissions must be byte-identical. Non-trivial = scenario that serialises at least one header record built "
